@@ -630,8 +630,10 @@ def run_requests(reqs: list[dict[str, Any]], n_workers: int = 14) -> list[dict[s
         by_seed.setdefault(int(r.get("hash_seed", 0)), []).append(i)
     # split every seed's requests into shards so that all cores are used
     shards: list[tuple[int, list[int]]] = []
-    per = max(1, n_workers // max(1, len(by_seed)))
+    total = max(1, len(reqs))
     for seed, idxs in by_seed.items():
+        # workers in proportion to the seed's share of the requests (a seed with few requests gets one)
+        per = max(1, round(n_workers * len(idxs) / total))
         k = min(per, max(1, len(idxs) // 4))
         for s in range(k):
             part = idxs[s::k]
